@@ -153,7 +153,7 @@ def run_scenarios(ctx, scenarios, name="cons", shards=8, timeout=1500):
         for s in scenarios:
             f.write(json.dumps(s) + "\n")
     rc, out, trace, sums = ctx.go_test_parallel("^TestVerifConsumer$", cases, nproc=12, timeout=timeout, name=name,
-                                                only=["sim_cluster*", "sim_fetch*", "prod_driver*", "cons_driver*"])
+                                                only=["sim_cluster*", "sim_fetch*", "prod_driver*", "prod_sync*", "cons_driver*"])
     crash = []
     if rc != 0 and ("panic: " in out or "fatal error: " in out):
         crash = vlib.crash_violations(out)
